@@ -83,18 +83,25 @@ def run01(ck):
             texts.add(f"{a}/{b}/{c3}")
             texts.add(f"{a}.{b}.{c3}")
             texts.add(f"{a}/{b}")
-        objs = list(texts) + [None, b"1/2/3", 1.5, True, (1, 2, 3), [1], -1, 65536, 2**40, object(), float("nan")]
+        objs = list(texts) + [None, b"1/2/3", 1.5, True, (1, 2, 3), [1], -1, 65536, 2**40, object(), float("nan"),
+                              10**4299, 10**4300, -(10**4300), 10**5000, 1 << 20000, -(1 << 20000), 1e300, float("inf")]
 
         class Hostile:
             def __str__(self):
                 raise RuntimeError("hostile __str__")
 
         objs.append(Hostile())
-        for fmt in FMTS:
+        import sys
+
+        # the interpreter's limit on int <-> str conversion is a setting of the process (PYTHONINTMAXSTRDIGITS): default, disabled, lowest
+        lim0 = sys.get_int_max_str_digits()
+        short = [o for o in objs if not isinstance(o, str) or len(o) < 8][::3] + ["1" * 639, "1" * 640, "1" * 641, "1" * 4300, "1" * 4301, "0" * 4400, "5", "65535", "65536"]
+        for fmt, lim in [(f, lim0) for f in FMTS] + [(f, l_) for f in FMTS for l_ in (0, 640)]:
             set_fmt(fmt)
-            for o in objs:
+            sys.set_int_max_str_digits(lim)
+            for o in (objs if lim == lim0 else short):
                 for name, ctor in (("GroupAddress", GroupAddress), ("IndividualAddress", IndividualAddress), ("parse_device_group_address", parse_device_group_address)):
-                    c = {"t": "text", "out": "addr", "fixed": 0}
+                    c = {"t": "text", "out": "addr", "fixed": 0, "must": 0}
                     try:
                         a = ctor(o)
                         r1 = str(a)
@@ -105,9 +112,27 @@ def run01(ck):
                     except Exception as ex:  # noqa: BLE001
                         c["out"] = "other:" + type(ex).__name__
                     cases.append(c)
-                    info.append(f"{name}({o!r}) under {fmt}")
+                    info.append(f"{name}({short_repr(o)}) under {fmt}" + ("" if lim == lim0 else f", int_max_str_digits={lim}"))
+            if lim != lim0:
+                for raw in (0, 5, 255, 2047, 9999, 10000, 65535):
+                    for ctor in (GroupAddress, IndividualAddress):
+                        c = {"t": "text", "out": "addr", "fixed": 0}
+                        try:
+                            c["fixed"] = 1 if ctor(str(ctor(raw))).raw == raw else 0
+                        except CouldNotParseAddress:
+                            c["out"] = "parse_error"
+                        except Exception as ex:  # noqa: BLE001
+                            c["out"] = "other:" + type(ex).__name__
+                        c["must"] = 1
+                        cases.append(c)
+                        info.append(f"{ctor.__name__}(str({ctor.__name__}({raw}))) under {fmt}, int_max_str_digits={lim}")
+        sys.set_int_max_str_digits(lim0)
     finally:
         GroupAddress.address_format = saved
+        try:
+            sys.set_int_max_str_digits(lim0)
+        except Exception:  # noqa: BLE001
+            pass
     send = [{k: v for k, v in c.items() if k != "note"} for c in cases]
     res = tlc.batch(ck, "codec/Address_Judge", send, min_per_shard=6000, timeout=1800)
     seen = set()
@@ -129,6 +154,14 @@ def run01(ck):
            distinct_nontrivial=len({(c["t"], c.get("kind"), c.get("fmt"), c.get("out"), c.get("raw", 0) >> 8) for c in cases}),
            exhaustive=(ck.tier != "quick"), selftest_corrupted_rejected=len(muts), rule="distinct = (case type, kind, notation, outcome, raw >> 8)")
     ck.sample(cases[5])
+
+
+def short_repr(o):
+    try:
+        r = repr(o)
+    except Exception:  # noqa: BLE001 - a number beyond the conversion limit
+        r = f"<{type(o).__name__} of {o.bit_length()} bits>" if isinstance(o, int) else f"<{type(o).__name__}>"
+    return r if len(r) < 80 else r[:40] + f"...({len(r)} characters)"
 
 
 def spell(r):
